@@ -1,4 +1,5 @@
 """C14 - one header per file section (right file, right event) and one per hunk."""
+import re
 from .. import engine, gen, rows, runner, term
 from ..engine import held, inconclusive, violated, crash_outcome
 
@@ -139,6 +140,12 @@ def make_section(rng, kind, idx, pa, pb):
         h.fragment = rng.choice(gen.FRAGMENTS + ['struct X {', 'a @@ b', '\tindented with tab', 'trailing space  '])
     s.pa, s.pb = pa, pb
     s.cc_word = rng.choice(['cc', 'combined'])
+    # diff -u output whose empty context lines lost their blank (an editor or a mail client that strips trailing white space;
+    # GNU diff --suppress-blank-empty writes them that way itself): only used for the plain format
+    s.strip_blank = rng.random() < 0.3
+    if s.strip_blank:
+        for h in s.hunks:
+            h.lines = [(kk, '' if kk == ' ' and rng.random() < 0.6 else t) for kk, t in h.lines]
     return s
 
 
@@ -204,7 +211,7 @@ def section_lines(s, fmt):
             L += ['new file mode 100644', 'index 0000000..2222222', 'Binary files /dev/null and %s differ' % gq(pb, b, False)]
     for h in s.hunks:
         L.append(h.header())
-        L += [kk + t for kk, t in h.lines]
+        L += ['' if (fmt == 'plain' and s.strip_blank and kk == ' ' and not t) else kk + t for kk, t in h.lines]
     return L
 
 
@@ -387,10 +394,16 @@ def run_item(item):
                 pos += 1
             elif hh or frag.strip():
                 return bad('hunk-header-missing', 'hunk header row missing', h.header(), infos[pos].text[:100] if pos < len(infos) else 'end')
+            leading = not (pos > 0 and infos[pos - 1].kind == 'hunk')
             for kk, t in h.lines:
                 if not t.strip() and pos < len(infos) and infos[pos].kind == 'blank':
                     pos += 1     # an empty line may render as an empty row
                     continue
+                if not t.strip() and leading and not (pos < len(infos) and infos[pos].kind == 'code'
+                                                      and re.match(r'^[\s\d\u22ee\u2502:]*$', infos[pos].text)):
+                    # the hunk has no header row, and the empty rows of its first lines went with the blank rows skipped above
+                    continue
+                leading = leading and not t.strip()
                 if pos >= len(infos) or infos[pos].kind != 'code':
                     if pos < len(infos) and infos[pos].kind == 'file':
                         return bad('header-duplicated-or-early', 'a file header row appears inside the hunk lines of section %d (%s)' % (si, s.kind),
